@@ -67,6 +67,20 @@ func freePort() int {
 }
 
 func runRS(c *hx.Ctx, r rsCase, seq int) {
+	for attempt := 0; ; attempt++ {
+		j := startJitter()
+		impl := runRSOnce(c, r, seq*10+attempt)
+		if w := j.worst(); w > maxJitter && attempt < 4 {
+			c.Count("rs.repeated-after-stall")
+			continue
+		}
+		c.Emit("C11", r.String(), impl)
+		c.Count("rs.phase=" + r.phase + ".proto=" + r.proto)
+		return
+	}
+}
+
+func runRSOnce(c *hx.Ctx, r rsCase, seq int) string {
 	bin, err := buildMosn()
 	if err != nil {
 		panic(err)
@@ -179,8 +193,7 @@ func runRS(c *hx.Ctx, r rsCase, seq int) {
 		cl.Close()
 		after = "conn"
 	}
-	c.Emit("C11", r.String(), fmt.Sprintf("req=%s exitfirst=%d exit=%d after=%s", okTok(reqErr), exitFirst, code, after))
-	c.Count("rs.phase=" + r.phase + ".proto=" + r.proto)
+	return fmt.Sprintf("req=%s exitfirst=%d exit=%d after=%s", okTok(reqErr), exitFirst, code, after)
 }
 
 func genRS(c *hx.Ctx, i int) rsCase {
